@@ -66,6 +66,26 @@
 //!                        that the grid above stays green): AND / OR / NOT / IS NULL in the WHERE clause of a join (SQL three-valued
 //!                        logic on the missing side of outer joins); explicit NULLS FIRST / LAST with ASC and DESC on a nullable
 //!                        column and on the missing side of a LEFT JOIN; OFFSET / ORDER BY through the legacy `execute` entry point.
+//! * C15.text.equiv.graph_algo — `mod galgo`: the GRAPH statement families of the grammar (parser.rs `parse_graph_*`, `parse_neighbors`, `parse_path`,
+//!                        `parse_find`) on a fixed ASYMMETRIC directed graph built with direct engine calls (a hub with three out-edges, a sink with
+//!                        three in-edges, a chain, one 2-cycle, two edge types), so that direction and the edge-type filter change every answer:
+//!                        GRAPH PAGERANK [DAMPING d] [TOLERANCE t] [ITERATIONS n] [OUTGOING|INCOMING|BOTH] [EDGE TYPE t]; GRAPH BETWEENNESS CENTRALITY
+//!                        [SAMPLING r] [dir] [EDGE TYPE t]; GRAPH CLOSENESS CENTRALITY [dir] [EDGE TYPE t]; GRAPH EIGENVECTOR CENTRALITY [ITERATIONS n]
+//!                        [TOLERANCE t] [dir] [EDGE TYPE t]; GRAPH LOUVAIN COMMUNITIES [RESOLUTION r] [PASSES n] [dir] [EDGE TYPE t]; GRAPH LABEL
+//!                        PROPAGATION [ITERATIONS n] [dir] [EDGE TYPE t] -- EVERY subset of the optional clauses (each direction), in the documented
+//!                        clause order and, for >= 2 clauses, in the reverse order; NEIGHBORS id [dir] [: type] for every node (and a missing id);
+//!                        PATH [SHORTEST] a -> b [LIMIT n] for every ordered pair of nodes (LIMIT only with n >= the node count: the text does not say
+//!                        what LIMIT bounds, so only values on which every reading agrees); FIND NODE [label] [LIMIT n], FIND EDGE [type] [LIMIT n].
+//!                        Executed through `execute_parsed` on the router; oracle = the direct `graph_engine` call ON THE SAME ROUTER (the statements
+//!                        are read-only, which is checked on the whole graph image; node order and tie-breaking of the algorithms are per-instance)
+//!                        with the configuration the text dictates: `PageRankConfig::default()` / `CentralityConfig::default()` /
+//!                        `CommunityConfig::default()` with exactly the WRITTEN clauses overridden -- an omitted clause means the ENGINE's default
+//!                        (no clause at all is also compared with `engine.call(None)`); NEIGHBORS without a direction = OUTGOING (the grammar's
+//!                        documented default).  Scores / modularity / convergence compared with tolerance 1e-9, node sets, community assignments,
+//!                        member lists, iteration / pass / sample counts, paths and id lists exactly (id lists as sets); LIMIT n: min(n, total) items,
+//!                        all of them from the unlimited answer.  Where the engine's own answer is not a function of its input (a tie broken by hash
+//!                        order) the text answer must equal one of up to 8 direct answers.  The grammar has no statement for
+//!                        `GraphEngine::connected_components`.
 //!   (`bounded replay c15_parser C15.debug.expr '{"text": ".."}'` / `C15.debug.query '{"text": "..", "entry": ".."}'` print what the two
 //!    expression parsers / the router on the paging fixture return for a text; they are triage helpers, not obligations.)
 use crate::fw::{no_panic, Report, Rng, Tier};
@@ -1512,9 +1532,349 @@ mod page {
         Ok(out)
     }
 }
+
+// ---------------------------------------------------------------------------------------------
+// C15.text.equiv.graph_algo — GRAPH algorithm statements, NEIGHBORS, PATH, FIND NODE / EDGE vs the direct graph_engine call
+// ---------------------------------------------------------------------------------------------
+mod galgo {
+    use super::equiv::run_text;
+    use graph_engine::{CentralityConfig, CommunityConfig, Direction, GraphEngine, GraphError, PageRankConfig, PropertyValue};
+    use query_router::{QueryResult, QueryRouter};
+    use serde_json::{json, Value};
+    use std::collections::{BTreeMap, BTreeSet, HashMap};
+
+    pub const OB: &str = "C15.text.equiv.graph_algo";
+    const TOL: f64 = 1e-9;
+    /// how many direct answers the text answer is compared with before it counts as different (the engine may break ties by hash order)
+    const TRIES: usize = 8;
+    /// (label, name)
+    const NODES: [(&str, &str); 8] = [("hubn", "h"), ("plain", "a"), ("plain", "b"), ("plain", "c"), ("sinkn", "s"), ("plain", "d"), ("plain", "e"), ("plain", "f")];
+    /// hub h -> a, b, c; sink s <- a, b, c; chain c -> d -> e; 2-cycle e <-> f; two edge types
+    const EDGES: [(usize, usize, &str); 10] = [(0, 1, "follows"), (0, 2, "follows"), (0, 3, "follows"), (1, 4, "follows"), (2, 4, "follows"), (3, 4, "likes"),
+                                               (3, 5, "follows"), (5, 6, "follows"), (6, 7, "likes"), (7, 6, "follows")];
+    /// index of a node that does not exist
+    const MISSING: u64 = 99;
+    const MISSING_ID: u64 = 999_999;
+
+    pub struct Fx { pub r: QueryRouter, pub ids: Vec<u64>, pub img: String }
+
+    pub fn graph_img(g: &GraphEngine) -> String {
+        let mut n: Vec<String> = g.all_nodes().iter().map(|x| format!("{}:{:?}:{:?}", x.id, x.labels, x.properties.iter().collect::<BTreeMap<_, _>>())).collect();
+        n.sort();
+        let mut e: Vec<String> = g.all_edges().iter().map(|x| format!("{}:{}->{}:{}:{}", x.id, x.from, x.to, x.edge_type, x.directed)).collect();
+        e.sort();
+        format!("nodes={n:?} edges={e:?}")
+    }
+
+    pub fn fixture() -> Result<Fx, String> {
+        let r = QueryRouter::new();
+        let mut ids = vec![];
+        for (label, name) in NODES {
+            let mut p = HashMap::new();
+            p.insert("name".to_string(), PropertyValue::String(name.to_string()));
+            ids.push(r.graph().create_node(label, p).map_err(|e| e.to_string())?);
+        }
+        for (a, b, t) in EDGES { r.graph().create_edge(ids[a], ids[b], t, HashMap::new(), true).map_err(|e| e.to_string())?; }
+        let img = graph_img(r.graph());
+        Ok(Fx { r, ids, img })
+    }
+
+    /// statement head and its optional clauses in the documented order: (case key, values used by the enumeration)
+    fn clauses(stmt: &str) -> Option<(&'static str, Vec<(&'static str, Vec<Value>)>)> {
+        let dir = ("direction", vec![json!("OUTGOING"), json!("INCOMING"), json!("BOTH")]);
+        let et = ("edge_type", vec![json!("follows")]);
+        Some(match stmt {
+            "pagerank" => ("GRAPH PAGERANK", vec![("damping", vec![json!(0.5)]), ("tolerance", vec![json!(0.001)]), ("iterations", vec![json!(3)]), dir, et]),
+            "betweenness" => ("GRAPH BETWEENNESS CENTRALITY", vec![("sampling", vec![json!(0.5), json!(1.0)]), dir, et]),
+            "closeness" => ("GRAPH CLOSENESS CENTRALITY", vec![dir, et]),
+            "eigenvector" => ("GRAPH EIGENVECTOR CENTRALITY", vec![("iterations", vec![json!(5)]), ("tolerance", vec![json!(0.01)]), dir, et]),
+            "louvain" => ("GRAPH LOUVAIN COMMUNITIES", vec![("resolution", vec![json!(0.5)]), ("passes", vec![json!(1)]), dir, et]),
+            "label_propagation" => ("GRAPH LABEL PROPAGATION", vec![("iterations", vec![json!(2)]), dir, et]),
+            _ => return None,
+        })
+    }
+    pub const ALGOS: [&str; 6] = ["pagerank", "betweenness", "closeness", "eigenvector", "louvain", "label_propagation"];
+
+    fn num_text(v: &Value) -> Result<String, String> {
+        if let Some(i) = v.as_u64() { return Ok(i.to_string()); }
+        let f = v.as_f64().filter(|f| f.is_finite() && *f >= 0.0).ok_or("clause value must be a non-negative number")?;
+        let t = format!("{f}");
+        Ok(if t.contains('.') { t } else { format!("{t}.0") })
+    }
+    fn direction(v: &Value) -> Result<Option<Direction>, String> {
+        Ok(match v.as_str() { None if v.is_null() => None, Some("OUTGOING") => Some(Direction::Outgoing), Some("INCOMING") => Some(Direction::Incoming), Some("BOTH") => Some(Direction::Both), _ => return Err("direction".into()) })
+    }
+    fn opt_str(v: &Value) -> Result<Option<String>, String> {
+        if v.is_null() { return Ok(None); }
+        v.as_str().filter(|s| !s.is_empty() && s.chars().all(|c| c.is_ascii_alphanumeric() || c == '_')).map(|s| Some(s.to_string())).ok_or_else(|| "identifier expected".to_string())
+    }
+    fn opt_f64(v: &Value) -> Result<Option<f64>, String> { if v.is_null() { Ok(None) } else { v.as_f64().map(Some).ok_or_else(|| "number expected".to_string()) } }
+    fn opt_usize(v: &Value) -> Result<Option<usize>, String> { if v.is_null() { Ok(None) } else { v.as_u64().map(|n| Some(n as usize)).ok_or_else(|| "non-negative integer expected".to_string()) } }
+    fn node_id(v: &Value, fx: &Fx) -> Result<u64, String> {
+        let i = v.as_u64().ok_or("node index")?;
+        if i == MISSING { Ok(MISSING_ID) } else { fx.ids.get(i as usize).copied().ok_or_else(|| "node index out of range".to_string()) }
+    }
+
+    /// the statement text of a case
+    pub fn text(case: &Value, fx: &Fx) -> Result<String, String> {
+        let stmt = case["stmt"].as_str().ok_or("stmt")?;
+        if let Some((head, cl)) = clauses(stmt) {
+            let mut parts = vec![];
+            for (key, _) in &cl {
+                let v = &case[*key];
+                if v.is_null() { continue; }
+                parts.push(match *key {
+                    "direction" => { direction(v)?; v.as_str().unwrap_or("").to_string() },
+                    "edge_type" => format!("EDGE TYPE {}", opt_str(v)?.unwrap_or_default()),
+                    k => format!("{} {}", k.to_uppercase(), num_text(v)?),
+                });
+            }
+            if case["rev"].as_bool() == Some(true) { parts.reverse(); }
+            return Ok(std::iter::once(head.to_string()).chain(parts).collect::<Vec<_>>().join(" "));
+        }
+        let lim = |v: &Value| -> Result<String, String> { Ok(opt_usize(v)?.map_or(String::new(), |n| format!(" LIMIT {n}"))) };
+        Ok(match stmt {
+            "neighbors" => format!("NEIGHBORS {}{}{}", node_id(&case["node"], fx)?, direction(&case["direction"])?.map_or(String::new(), |_| format!(" {}", case["direction"].as_str().unwrap_or(""))),
+                                   opt_str(&case["edge_type"])?.map_or(String::new(), |t| format!(" : {t}"))),
+            "path" => format!("PATH {}{} -> {}{}", if case["shortest"].as_bool() == Some(true) { "SHORTEST " } else { "" }, node_id(&case["from"], fx)?, node_id(&case["to"], fx)?, lim(&case["limit"])?),
+            "find_node" => format!("FIND NODE{}{}", opt_str(&case["label"])?.map_or(String::new(), |l| format!(" {l}")), lim(&case["limit"])?),
+            "find_edge" => format!("FIND EDGE{}{}", opt_str(&case["edge_type"])?.map_or(String::new(), |l| format!(" {l}")), lim(&case["limit"])?),
+            _ => return Err(format!("unknown stmt {stmt}")),
+        })
+    }
+
+    fn close(a: f64, b: f64) -> bool { a == b || (a - b).abs() <= TOL }
+    fn close_opt(a: Option<f64>, b: Option<f64>) -> bool { match (a, b) { (Some(x), Some(y)) => close(x, y), (None, None) => true, _ => false } }
+    fn scores_diff(text: &[(u64, f64)], direct: &HashMap<u64, f64>) -> Vec<String> {
+        let mut why = vec![];
+        let t: BTreeMap<u64, f64> = text.iter().copied().collect();
+        if t.len() != text.len() { why.push("a node is listed twice".to_string()); }
+        if t.keys().copied().collect::<BTreeSet<_>>() != direct.keys().copied().collect::<BTreeSet<_>>() {
+            why.push(format!("node sets differ: text {:?}, direct {:?}", t.keys().collect::<Vec<_>>(), direct.keys().collect::<BTreeSet<_>>()));
+        }
+        let bad: Vec<String> = t.iter().filter_map(|(n, s)| direct.get(n).filter(|d| !close(*s, **d)).map(|d| format!("node {n}: text {s} / direct {d}"))).collect();
+        if !bad.is_empty() { why.push(format!("scores differ by more than 1e-9: {}", bad.join(", "))); }
+        why
+    }
+    fn sorted_members(m: &HashMap<u64, Vec<u64>>) -> BTreeMap<u64, Vec<u64>> { m.iter().map(|(k, v)| { let mut v = v.clone(); v.sort_unstable(); (*k, v) }).collect() }
+    fn res_short(r: &Result<QueryResult, query_router::RouterError>) -> String {
+        match r { Ok(o) => super::short(&format!("{o:?}")), Err(e) => format!("ERR {e}") }
+    }
+    /// `diff` compares the text answer with ONE fresh direct answer (empty = equal); equal to one of TRIES direct answers is enough
+    fn some_direct_answer_matches(mut diff: impl FnMut() -> Result<Vec<String>, Vec<String>>) -> Result<(), Vec<String>> {
+        let mut last = vec![];
+        for _ in 0..TRIES {
+            let w = diff()?;
+            if w.is_empty() { return Ok(()); }
+            last = w;
+        }
+        Err(last)
+    }
+
+    /// Runs the direct engine call the case dictates and compares it with the text result.  Ok(summary) / Err(differences).
+    fn compare(case: &Value, fx: &Fx, got: &Result<QueryResult, query_router::RouterError>) -> Result<String, Vec<String>> {
+        let g = fx.r.graph();
+        let stmt = case["stmt"].as_str().unwrap_or("");
+        let e1 = |e: String| vec![e];
+        let dir = direction(&case["direction"]).map_err(e1)?;
+        let et = opt_str(&case["edge_type"]).map_err(e1)?;
+        // no clause written: the statement must also equal `engine.call(None)`
+        let none_written = clauses(stmt).is_some_and(|(_, cl)| cl.iter().all(|(k, _)| case[*k].is_null()));
+        let mut why: Vec<String> = vec![];
+        let summary;
+        match stmt {
+            "pagerank" => {
+                let mut c = PageRankConfig::default();
+                if let Some(x) = opt_f64(&case["damping"]).map_err(e1)? { c.damping = x; }
+                if let Some(x) = opt_f64(&case["tolerance"]).map_err(e1)? { c.tolerance = x; }
+                if let Some(x) = opt_usize(&case["iterations"]).map_err(e1)? { c.max_iterations = x; }
+                if let Some(d) = dir { c.direction = d; }
+                if et.is_some() { c.edge_type = et.clone(); }
+                summary = format!("pagerank({c:?}){}", if none_written { " and pagerank(None)" } else { "" });
+                let Ok(QueryResult::PageRank(t)) = got else { return Err(vec![format!("the text result is {}, expected a PageRank result [direct: {summary}]", res_short(got))]) };
+                let mut cfgs = vec![Some(c)];
+                if none_written { cfgs.push(None); }
+                for cfg in cfgs {
+                    if let Err(w) = some_direct_answer_matches(|| {
+                        let d = g.pagerank(cfg.clone()).map_err(|e| vec![format!("direct pagerank failed: {e}")])?;
+                        let mut w = scores_diff(&t.items.iter().map(|i| (i.node_id, i.score)).collect::<Vec<_>>(), &d.scores);
+                        if t.iterations != d.iterations || t.converged != d.converged || !close(t.convergence, d.convergence) {
+                            w.push(format!("iterations/converged/convergence: text {}/{}/{} vs direct {}/{}/{}", t.iterations, t.converged, t.convergence, d.iterations, d.converged, d.convergence));
+                        }
+                        Ok(w)
+                    }) { why.extend(w); }
+                }
+            },
+            "betweenness" | "closeness" | "eigenvector" => {
+                let mut c = CentralityConfig::default();
+                if let Some(x) = opt_f64(&case["sampling"]).map_err(e1)? { c.sampling_ratio = x; }
+                if let Some(x) = opt_f64(&case["tolerance"]).map_err(e1)? { c.tolerance = x; }
+                if let Some(x) = opt_usize(&case["iterations"]).map_err(e1)? { c.max_iterations = x; }
+                if let Some(d) = dir { c.direction = d; }
+                if et.is_some() { c.edge_type = et.clone(); }
+                summary = format!("{stmt}_centrality({c:?}){}", if none_written { " and (None)" } else { "" });
+                let call = |cfg: Option<CentralityConfig>| match stmt { "betweenness" => g.betweenness_centrality(cfg), "closeness" => g.closeness_centrality(cfg), _ => g.eigenvector_centrality(cfg) };
+                let Ok(QueryResult::Centrality(t)) = got else { return Err(vec![format!("the text result is {}, expected a Centrality result [direct: {summary}]", res_short(got))]) };
+                let mut cfgs = vec![Some(c)];
+                if none_written { cfgs.push(None); }
+                for cfg in cfgs {
+                    if let Err(w) = some_direct_answer_matches(|| {
+                        let d = call(cfg.clone()).map_err(|e| vec![format!("direct {stmt}_centrality failed: {e}")])?;
+                        let mut w = scores_diff(&t.items.iter().map(|i| (i.node_id, i.score)).collect::<Vec<_>>(), &d.scores);
+                        if format!("{:?}", t.centrality_type) != format!("{:?}", d.centrality_type) || t.iterations != d.iterations || t.converged != d.converged || t.sample_count != d.sample_count {
+                            w.push(format!("type/iterations/converged/sample_count: text {:?}/{:?}/{:?}/{:?} vs direct {:?}/{:?}/{:?}/{:?}", t.centrality_type, t.iterations, t.converged, t.sample_count, d.centrality_type, d.iterations, d.converged, d.sample_count));
+                        }
+                        Ok(w)
+                    }) { why.extend(w); }
+                }
+            },
+            "louvain" | "label_propagation" => {
+                let mut c = CommunityConfig::default();
+                if let Some(x) = opt_f64(&case["resolution"]).map_err(e1)? { c.resolution = x; }
+                if let Some(x) = opt_usize(&case["passes"]).map_err(e1)? { c.max_passes = x; }
+                if let Some(x) = opt_usize(&case["iterations"]).map_err(e1)? { c.max_iterations = x; }
+                if let Some(d) = dir { c.direction = d; }
+                if et.is_some() { c.edge_type = et.clone(); }
+                summary = format!("{stmt}({c:?}){}", if none_written { " and (None)" } else { "" });
+                let call = |cfg: Option<CommunityConfig>| if stmt == "louvain" { g.louvain_communities(cfg) } else { g.label_propagation(cfg) };
+                let Ok(QueryResult::Communities(t)) = got else { return Err(vec![format!("the text result is {}, expected a Communities result [direct: {summary}]", res_short(got))]) };
+                let t_comm: BTreeMap<u64, u64> = t.items.iter().map(|i| (i.node_id, i.community_id)).collect();
+                if t_comm.len() != t.items.len() { why.push("a node is listed twice".to_string()); }
+                let mut cfgs = vec![Some(c)];
+                if none_written { cfgs.push(None); }
+                for cfg in cfgs {
+                    if let Err(w) = some_direct_answer_matches(|| {
+                        let d = call(cfg.clone()).map_err(|e| vec![format!("direct {stmt} failed: {e}")])?;
+                        let mut w = vec![];
+                        let d_comm: BTreeMap<u64, u64> = d.communities.iter().map(|(k, v)| (*k, *v)).collect();
+                        if t_comm != d_comm { w.push(format!("community assignment: text {t_comm:?} vs direct {d_comm:?}")); }
+                        if sorted_members(&t.members) != sorted_members(&d.members) { w.push(format!("members: text {:?} vs direct {:?}", sorted_members(&t.members), sorted_members(&d.members))); }
+                        if t.community_count != d.community_count || t.passes != d.passes || t.iterations != d.iterations || !close_opt(t.modularity, d.modularity) {
+                            w.push(format!("count/passes/iterations/modularity: text {}/{:?}/{:?}/{:?} vs direct {}/{:?}/{:?}/{:?}", t.community_count, t.passes, t.iterations, t.modularity, d.community_count, d.passes, d.iterations, d.modularity));
+                        }
+                        Ok(w)
+                    }) { why.extend(w); }
+                }
+            },
+            "neighbors" => {
+                let id = node_id(&case["node"], fx).map_err(e1)?;
+                let dd = dir.unwrap_or(Direction::Outgoing);
+                summary = format!("neighbors({id}, {et:?}, {dd:?}, None)");
+                let d = g.neighbors(id, et.as_deref(), dd, None).map(|v| v.iter().map(|n| n.id).collect::<BTreeSet<u64>>());
+                match (got, &d) {
+                    (Ok(QueryResult::Ids(t)), Ok(d)) => {
+                        let ts: BTreeSet<u64> = t.iter().copied().collect();
+                        if ts.len() != t.len() { why.push(format!("a neighbour is listed twice: {t:?}")); }
+                        if ts != *d { why.push(format!("text {ts:?} vs direct {d:?}")); }
+                    },
+                    (Err(_), Err(_)) => {},
+                    _ => why.push(format!("text {} vs direct {:?}", res_short(got), d.as_ref().map_err(ToString::to_string))),
+                }
+            },
+            "path" => {
+                let (a, b) = (node_id(&case["from"], fx).map_err(e1)?, node_id(&case["to"], fx).map_err(e1)?);
+                if let Some(n) = opt_usize(&case["limit"]).map_err(e1)? {
+                    if n < NODES.len() { return Err(vec!["PATH .. LIMIT n is only a case for n >= the node count (what LIMIT bounds is not specified)".to_string()]); }
+                }
+                summary = format!("find_path({a}, {b}, None)");
+                if let Err(w) = some_direct_answer_matches(|| {
+                    let d = match g.find_path(a, b, None) { Ok(p) => Ok(p.nodes), Err(GraphError::PathNotFound) => Ok(vec![]), Err(e) => Err(e.to_string()) };
+                    Ok(match (got, &d) {
+                        (Ok(QueryResult::Path(t)), Ok(d)) if t == d => vec![],
+                        (Err(_), Err(_)) => vec![],
+                        _ => vec![format!("text {} vs direct {d:?}", res_short(got))],
+                    })
+                }) { why.extend(w); }
+            },
+            "find_node" | "find_edge" => {
+                let limit = opt_usize(&case["limit"]).map_err(e1)?;
+                // id -> the fields the unified item must show
+                let full: BTreeMap<String, BTreeMap<String, String>> = if stmt == "find_node" {
+                    let label = opt_str(&case["label"]).map_err(e1)?;
+                    let nodes = match &label { Some(l) => g.find_nodes_by_label(l).map_err(|e| vec![format!("direct find_nodes_by_label failed: {e}")])?, None => g.all_nodes() };
+                    nodes.iter().map(|n| {
+                        let mut f = BTreeMap::new();
+                        f.insert("label".to_string(), n.labels.join(":"));
+                        if let Some(PropertyValue::String(x)) = n.properties.get("name") { f.insert("name".to_string(), x.clone()); }
+                        (n.id.to_string(), f)
+                    }).collect()
+                } else {
+                    let edges = match &et { Some(t) => g.find_edges_by_type(t).map_err(|e| vec![format!("direct find_edges_by_type failed: {e}")])?, None => g.all_edges() };
+                    edges.iter().map(|e| (e.id.to_string(), [("from".to_string(), e.from.to_string()), ("to".to_string(), e.to.to_string()), ("type".to_string(), e.edge_type.clone())].into_iter().collect())).collect()
+                };
+                let want_n = limit.map_or(full.len(), |n| n.min(full.len()));
+                summary = format!("{} -> {want_n} of {} item(s)", if stmt == "find_node" { "find_nodes_by_label / all_nodes" } else { "find_edges_by_type / all_edges" }, full.len());
+                let Ok(QueryResult::Unified(t)) = got else { return Err(vec![format!("the text result is {}, expected a Unified result [direct: {summary}]", res_short(got))]) };
+                let ids: BTreeSet<&String> = t.items.iter().map(|i| &i.id).collect();
+                if ids.len() != t.items.len() { why.push("an item is listed twice".to_string()); }
+                if t.items.len() != want_n { why.push(format!("{} item(s), expected {want_n} (direct call: {}, LIMIT {limit:?})", t.items.len(), full.len())); }
+                for i in &t.items {
+                    match full.get(&i.id) {
+                        None => why.push(format!("item {} is not in the direct answer {:?}", i.id, full.keys().collect::<Vec<_>>())),
+                        Some(f) => for (k, v) in f { if i.data.get(k) != Some(v) { why.push(format!("item {}: field {k} = {:?}, direct {v:?}", i.id, i.data.get(k))); } },
+                    }
+                }
+            },
+            _ => return Err(vec![format!("unknown stmt {stmt}")]),
+        }
+        if why.is_empty() { Ok(summary) } else { why.push(format!("[direct: {summary}]")); Err(why) }
+    }
+
+    /// Err = the text path and the direct path differ (or the statement changed the graph)
+    pub fn eval_in(case: &Value, fx: &Fx) -> Result<String, String> {
+        let q = text(case, fx)?;
+        let got = match run_text(&fx.r, "execute_parsed", &q) { Ok(r) => r, Err(p) => return Err(format!("execute_parsed({q:?}) PANICKED: {p}")) };
+        let cmp = compare(case, fx, &got);
+        let after = graph_img(fx.r.graph());
+        match cmp {
+            Ok(sum) if after == fx.img => Ok(format!("execute_parsed({q:?}) == {sum}; graph unchanged")),
+            Ok(_) => Err(format!("execute_parsed({q:?}) changed the graph: {after} (before: {})", fx.img)),
+            Err(why) => Err(format!("execute_parsed({q:?}) => {}; differs from the direct graph_engine call: {}{}", res_short(&got), why.join(" | "), if after == fx.img { "" } else { " | and the statement changed the graph" })),
+        }
+    }
+    pub fn eval(case: &Value) -> Result<String, String> { eval_in(case, &fixture()?) }
+
+    pub fn cases() -> Vec<Value> {
+        let mut out = vec![];
+        for stmt in ALGOS {
+            let (_, cl) = clauses(stmt).expect("algo");
+            // every subset of the optional clauses x every value of the written ones
+            let mut combos: Vec<Vec<(&str, Value)>> = vec![vec![]];
+            for (key, vals) in &cl {
+                let mut next = vec![];
+                for c in &combos {
+                    next.push(c.clone());
+                    for v in vals { let mut d = c.clone(); d.push((*key, v.clone())); next.push(d); }
+                }
+                combos = next;
+            }
+            for c in combos {
+                let mut j = json!({"stmt": stmt});
+                for (k, v) in &c { j[*k] = v.clone(); }
+                out.push(j.clone());
+                if c.len() >= 2 { j["rev"] = json!(true); out.push(j); }
+            }
+        }
+        let dirs = [Value::Null, json!("OUTGOING"), json!("INCOMING"), json!("BOTH")];
+        for node in (0..NODES.len() as u64).chain([MISSING]) { for d in &dirs { for t in [Value::Null, json!("follows"), json!("likes")] {
+            out.push(json!({"stmt": "neighbors", "node": node, "direction": d, "edge_type": t}));
+        } } }
+        for a in 0..NODES.len() as u64 { for b in 0..NODES.len() as u64 { for shortest in [false, true] { for limit in [Value::Null, json!(16)] {
+            out.push(json!({"stmt": "path", "from": a, "to": b, "shortest": shortest, "limit": limit}));
+        } } } }
+        out.push(json!({"stmt": "path", "from": 0, "to": MISSING, "shortest": false, "limit": null}));
+        out.push(json!({"stmt": "path", "from": MISSING, "to": 4, "shortest": true, "limit": null}));
+        for limit in [Value::Null, json!(0), json!(2), json!(100)] {
+            for l in [Value::Null, json!("hubn"), json!("plain"), json!("nolabel")] { out.push(json!({"stmt": "find_node", "label": l, "limit": limit})); }
+            for t in [Value::Null, json!("follows"), json!("likes"), json!("notype")] { out.push(json!({"stmt": "find_edge", "edge_type": t, "limit": limit})); }
+        }
+        out
+    }
+}
 // ---------------------------------------------------------------------------------------------
 
-const OBS: [(&str, &str); 14] = [
+const OBS: [(&str, &str); 15] = [
+    ("C15.text.equiv.graph_algo", "QueryRouter::execute_parsed (exec_graph_algorithm / exec_neighbors / exec_path / exec_find) vs GraphEngine::{pagerank, betweenness_centrality, closeness_centrality, eigenvector_centrality, louvain_communities, label_propagation, neighbors, find_path, find_nodes_by_label, find_edges_by_type, all_nodes, all_edges}"),
     ("C15.text.equiv.join_where", "QueryRouter::execute_parsed (exec_select_with_joins / evaluate_join_condition) vs RelationalEngine join family + filter"),
     ("C15.text.equiv.order_nulls", "QueryRouter::execute_parsed (sort_rows / compare_values_with_nulls) vs RelationalEngine::{select,left_join} + sort"),
     ("C15.text.equiv.legacy_page", "QueryRouter::execute (execute_select) vs RelationalEngine::select + sort / skip / take"),
@@ -1541,7 +1901,7 @@ pub fn run(tier: Tier, seed: u64) -> Report {
     let thorough = tier == Tier::Thorough;
     let maxlen = if thorough { 4 } else { 3 };
     let mut rep = Report::new("c15_parser",
-        &format!("total/determinism: all strings of <= {maxlen} symbols over a 40-symbol alphabet (letters a S E, digits, blank, newline, both quotes, backslash, brackets, punctuation, all operator characters, e-acute, NUL) + 48 statement/clause keyword prefixes x all strings of <= 2 symbols{}; depth: 16 nesting families x 4 entry points (parse_expr, parse/parse_all of SELECT e, parse of SELECT..WHERE e) x n in {{1,2,63,64,65,66,200 in-process; 1000,10000,100000 in a child process}}, flat chains n in {{100,2000}}; precedence: all 10121 trees of height <= 3 over 19 binary + 3 unary operators, minimal and full parentheses, via parse_expr and via parse(\"SELECT e\"){}; 25 operator lexemes; text.equiv: 7 statement families (10 WHERE shapes for SELECT/UPDATE/DELETE) through execute_parsed and, where the text is valid in both languages, through execute = 54 statements against the direct engine call; precedence.postfix: all 60543 expression trees of height <= 3 over the whole expression grammar (19 binary, 3 unary, 25 postfix/special forms: IS [NOT] NULL, [NOT] IN list/sub-query, [NOT] BETWEEN, [NOT] LIKE, qualified name, calls, CASE, CAST, EXISTS, array, tuple; operands of height 2 over one binary operator per level, all unary, all special forms; every pair of operand positions for arity >= 3) in minimal / full / bare parenthesisation through parse_expr and parse(\"SELECT * FROM t WHERE e\") incl. agreement of the two{}; text.equiv.join_page: 10 join spellings x ON/USING/alias conditions x 3 WHERE x 2-3 ORDER BY shapes x (LIMIT, OFFSET) in {{absent,0,1,2,size-1,size,size+1}}^2 on 5x5-row tables with duplicate and unmatched keys + plain SELECT grid = 7518 statements, row-by-row in order against the engine's join family; join_where 36, order_nulls 16, legacy_page 5 statements; total.execute: 6 statement prefixes x all strings of <= 3 symbols over {{a,1,blank,=,quote,' AND ',' OR ',dotless-i,e-acute,fi-ligature}} = 6666 texts",
+        &format!("total/determinism: all strings of <= {maxlen} symbols over a 40-symbol alphabet (letters a S E, digits, blank, newline, both quotes, backslash, brackets, punctuation, all operator characters, e-acute, NUL) + 48 statement/clause keyword prefixes x all strings of <= 2 symbols{}; depth: 16 nesting families x 4 entry points (parse_expr, parse/parse_all of SELECT e, parse of SELECT..WHERE e) x n in {{1,2,63,64,65,66,200 in-process; 1000,10000,100000 in a child process}}, flat chains n in {{100,2000}}; precedence: all 10121 trees of height <= 3 over 19 binary + 3 unary operators, minimal and full parentheses, via parse_expr and via parse(\"SELECT e\"){}; 25 operator lexemes; text.equiv: 7 statement families (10 WHERE shapes for SELECT/UPDATE/DELETE) through execute_parsed and, where the text is valid in both languages, through execute = 54 statements against the direct engine call; precedence.postfix: all 60543 expression trees of height <= 3 over the whole expression grammar (19 binary, 3 unary, 25 postfix/special forms: IS [NOT] NULL, [NOT] IN list/sub-query, [NOT] BETWEEN, [NOT] LIKE, qualified name, calls, CASE, CAST, EXISTS, array, tuple; operands of height 2 over one binary operator per level, all unary, all special forms; every pair of operand positions for arity >= 3) in minimal / full / bare parenthesisation through parse_expr and parse(\"SELECT * FROM t WHERE e\") incl. agreement of the two{}; text.equiv.join_page: 10 join spellings x ON/USING/alias conditions x 3 WHERE x 2-3 ORDER BY shapes x (LIMIT, OFFSET) in {{absent,0,1,2,size-1,size,size+1}}^2 on 5x5-row tables with duplicate and unmatched keys + plain SELECT grid = 7518 statements, row-by-row in order against the engine's join family; join_where 36, order_nulls 16, legacy_page 5 statements; text.equiv.graph_algo: on an 8-node asymmetric directed graph (hub, sink, chain, 2-cycle, 2 edge types) every subset of the optional clauses (x each direction, forward and reversed clause order) of GRAPH PAGERANK / BETWEENNESS / CLOSENESS / EIGENVECTOR CENTRALITY / LOUVAIN COMMUNITIES / LABEL PROPAGATION, NEIGHBORS for 9 ids x 4 directions x 3 type filters, PATH [SHORTEST] a -> b [LIMIT 16] for all 64 ordered pairs, FIND NODE / EDGE x 4 filters x 4 limits, against the direct graph_engine call on the same router; total.execute: 6 statement prefixes x all strings of <= 3 symbols over {{a,1,blank,=,quote,' AND ',' OR ',dotless-i,e-acute,fi-ligature}} = 6666 texts",
                  if thorough { " + 20000 seeded keyword-soup strings up to 4 KB (not exhaustive)" } else { "" },
                  if thorough { "; height 4 over one operator per precedence level + unary minus (10.9 M trees, parse_expr, exhaustive) + 20000 seeded random trees of height <= 8 over all operators (not exhaustive)" } else { "" },
                  if thorough { " + height 4 with one operand of height 3 (2.76 M trees) + 30000 seeded random trees of height <= 8 with literal leaves (not exhaustive)" } else { "" }),
@@ -1654,6 +2014,17 @@ pub fn run(tier: Tier, seed: u64) -> Report {
         Err(e) => rep.check("C15.text.equiv.join_page", false, &|| json!({"fixture": true}), &|| format!("cannot build the fixture / case list with direct engine calls: {e}")),
     }
     rep.sample(json!({"family": "join", "join": "LEFT JOIN", "cond": "on_k", "where": 0, "order": 0, "limit": 2, "offset": 1, "entry": "execute_parsed"}));
+    // --- graph statement families vs the direct graph_engine call (read-only: one shared fixture, a failure is re-evaluated on a fresh one)
+    match galgo::fixture() {
+        Ok(fx) => for c in galgo::cases() {
+            let mut r = galgo::eval_in(&c, &fx);
+            if r.is_err() { let fresh = galgo::eval(&c); if fresh.is_ok() { r = r.map_err(|e| format!("{e} [only after earlier statements on the same router; holds on a fresh router]")); } else { r = fresh; } }
+            rep.eval(true);
+            rep.check(galgo::OB, r.is_ok(), &|| c.clone(), &|| r.clone().err().unwrap_or_default());
+        },
+        Err(e) => rep.check(galgo::OB, false, &|| json!({"fixture": true}), &|| format!("cannot build the graph fixture with direct engine calls: {e}")),
+    }
+    rep.sample(json!({"stmt": "pagerank", "damping": 0.5, "direction": "INCOMING", "edge_type": "follows", "rev": true}));
     // --- text execution is total (no panic) on WHERE-clause soup incl. characters whose upper-case form has another byte length
     {
         const SYM: [&str; 10] = ["a", "1", " ", "=", "'", " AND ", " OR ", "\u{131}", "\u{e9}", "\u{fb01}"];
@@ -1699,6 +2070,7 @@ pub fn replay(ob: &str, case: &Value) -> Result<String, String> {
             postfix::eval(&t).map(|n| format!("{}: minimal {:?} / full / bare forms give the dictated tree in both parsers ({n} parser calls)", case["tree"], postfix::print(&t, postfix::Mode::Min).out))
         },
         "C15.text.equiv.join_page" | "C15.text.equiv.join_where" | "C15.text.equiv.order_nulls" | "C15.text.equiv.legacy_page" => page::eval(case),
+        "C15.text.equiv.graph_algo" => galgo::eval(case),
         "C15.debug.query" => {
             let r = page::fixture()?;
             let q = case["text"].as_str().ok_or("text")?;
